@@ -303,6 +303,8 @@ class TileWalker(object):
         meta_size = self.tile_mgr.meta_grid.meta_size if self.tile_mgr.meta_grid else (1, 1)
         self.tiles_per_metatile = meta_size[0] * meta_size[1]
         self.grid = MetaGrid(self.tile_mgr.grid, meta_size=meta_size, meta_buffer=0)
+        # resolution of the last level to seed, see _walk
+        self.last_level_res = self.tile_mgr.grid.resolution(task.levels[-1])
         self.count = 0
         self.seed_progress = seed_progress or SeedProgress()
 
@@ -343,7 +345,14 @@ class TileWalker(object):
         :param all_subtiles: seed all subtiles and do not check for
                              intersections with bbox/geom
         """
-        bbox_, tiles, subtiles = self.grid.get_affected_level_tiles(cur_bbox, current_level)
+        # get_affected_level_tiles ignores 1/10 of a pixel of the requested level at the
+        # borders of the bbox, so that tiles that are only touched are not returned.
+        # In the upper levels this is much more than 1/10 of a pixel of the last level:
+        # tiles (or whole rows of tiles) of the lower levels would never be reached.
+        # Grow the bbox so that only 1/10 of a pixel of the last level gets ignored.
+        pad = max(0, (self.tile_mgr.grid.resolution(current_level) - self.last_level_res) / 10.0)
+        affected_bbox = (cur_bbox[0] - pad, cur_bbox[1] - pad, cur_bbox[2] + pad, cur_bbox[3] + pad)
+        bbox_, tiles, subtiles = self.grid.get_affected_level_tiles(affected_bbox, current_level)
         total_subtiles = tiles[0] * tiles[1]
         if len(levels) < self.skip_geoms_for_last_levels:
             # do not filter in last levels
